@@ -467,6 +467,7 @@ theorem bagSectionInfo_spec (conv : Conv) (s : Schema) (b : Bag) (ty : Str) (nm 
           match mkBag conv t ((b.sectitems.filter (addresses · ty nm)).map dropHead) with
           | .error e => .error e
           | .ok child => .ok ({ b with sectitems := b.sectitems.filter (fun o => !addresses o ty nm) }, some child)
+        | none => .error (.cfg { kind := .schema, tag := "unknown type name" })
         | _ => .error (.internal "AttributeError") := by
   have e : bagSectionInfo conv s b ty nm =
       b.sectitems.foldlM (bsiStep ty nm) ([], []) >>= fun lr =>
@@ -474,6 +475,7 @@ theorem bagSectionInfo_spec (conv : Conv) (s : Schema) (b : Bag) (ty : Str) (nm 
         else
           match s.gettype ty with
           | some (.concrete t) => mkBag conv t lr.1 >>= fun child => pure ({ b with sectitems := lr.2 }, some child)
+          | none => throw (Fail.cfg { kind := .schema, tag := "unknown type name" })
           | _ => throw (Fail.internal "AttributeError") := rfl
   rw [e, bsi_fold ty nm b.sectitems [] [] h]
   simp only [bind, Except.bind, pure, Except.pure, throw, throwThe, MonadExceptOf.throw, List.nil_append, List.isEmpty_map]
